@@ -29,6 +29,16 @@ REQUIRED_REACH = ['ConversionSurfaceMCNPToT4.py:convert_cone',
 _PER = {'quick': 4, 'thorough': 60}
 
 
+def attach_monitors():
+    from .. import monitors
+    monitors.attach_contracts()
+
+
+def monitor_counts():
+    from .. import monitors
+    return dict(monitors.COUNTS)
+
+
 def plan(tier):
     out = []
     for kind, fams in ELEMENTARY_FAMILIES.items():
